@@ -10,6 +10,8 @@ What is proved here (all for the abstract RW-lock discipline model `Verif.Model.
                    entered into that order between its call and its return (so the order respects real time);
 * `mpt_table_ok`   the table REGENERATED from core/util/merkle_patricia_trie.go by go/extract satisfies `TableOK`
                    (for the operations the property names; the three exported methods that do not are pinned);
+* `C16_full_holds`  the discipline also covers what callers do with returned change sets (no record pointer
+                   escapes; false for the pre-4d3d8c8 `GetChanges`: `C16_full_old_false`);
 * `mptOld_not_ok`, `old_table_admits_race`   the table of the original code (commit 70d872e: `missingNodeKeys`
                    appended under the read lock only) does not, and its footprint admits a race in the model.
 
@@ -212,34 +214,57 @@ theorem old_table_admits_race :
         .inr ⟨1, .rel (.ret ()), rfl, rfl, rfl, rfl⟩, .inr ⟨1, .rel (.ret ()), rfl, rfl, rfl, rfl⟩, rfl, .inl rfl⟩
 
 
-/-! ## open known finding C16-getchanges-escape
+/-! ## what callers do with returned change sets (fixed defect 4d3d8c8, was finding C16-getchanges-escape)
 
-`GetChanges` returns the change collector's own `*NodeChange` records. A caller that reads such a record after
-`GetChanges` has returned holds neither the trie's lock nor the collector's; `ChangeCollector.AddChange` (called by
-every insert, under the trie's WRITE lock and the collector's own lock) updates such records in place. In the
-model: the caller's read is an access to the collector state (location `1000 + 4`) with no lock at all. The full
-statement — the discipline also covers what callers do with returned change sets — is false; what is proved above
-(`mpt_table_ok`, `no_conflict`, `lin_of_table`) is the partial statement for scripts that perform only the accesses
-of the methods themselves (the suite's matcher accepts exactly the race between `AddChange` and the harness
-reading a returned record). -/
+Until commit 4d3d8c8 `ChangeCollector.GetChanges` returned the collector's own `*NodeChange` records, which
+`AddChange` (called by every insert, under the trie's WRITE lock and the collector's own lock) updates in place: a
+caller reading a returned record — holding neither lock — raced with a concurrent insert. The extractor records
+such hand-outs syntactically (`Method.elemEscapes`: an element POINTER of a `map[..]*T` / `[]*T` field returned or
+stored outside the receiver as it is), and `callerAccesses` turns each into the caller-side access of the model:
+an unlocked read of the collector state (location `1000 + 4`).
 
-/-- a caller reading a `*NodeChange` record it got from `GetChanges`, after the call returned -/
-def callerReadsChangeRecord : FAcc := { loc := 1004, write := false, sub := 0, held := none }
+The FULL statement — the lockset discipline covers the methods' own accesses AND what callers do with the
+records they were handed — now holds for the regenerated table (`C16_full_holds`): `GetChanges` hands out copies,
+no method of the collector or of the trie lets a record pointer escape. For the pre-fix `GetChanges` it is false
+(`C16_full_old_false`).
 
-/-- full statement: the lockset discipline holds even when callers read the returned records -/
-def C16_full : Prop := LocksetOK (callerReadsChangeRecord :: footprint mptScope)
+What remains a hypothesis (not derivable from the table): the NODE objects the copied records and `GetDeletes`
+refer to are shared, but no method writes a node after it has been handed to the collector / store (nodes are
+immutable once published). The suite's `changesread` operation reads those nodes' hashes under the race detector. -/
 
-theorem C16_full_false : ¬ C16_full := by
+/-- the collector is the object behind field 4 of the trie -/
+theorem collector_is_field_4 : mptInfo.fields.idxOf "ChangeCollector" + 1 = 4 := by decide
+
+/-- full statement: the lockset discipline holds for the methods' accesses together with the callers' reads of
+every record a collector method hands out while it stays shared -/
+def C16_full (collector : List Method) : Prop :=
+  LocksetOK (callerAccesses 4 collector ++ footprint mptScope)
+
+/-- no method of the collector or of the trie hands out a pointer to one of its own records -/
+theorem no_record_escapes :
+    (changeCollector ++ mpt).all (fun m => m.elemEscapes.isEmpty) = true := by decide +kernel
+
+theorem C16_full_holds : C16_full changeCollector := by
+  have h : callerAccesses 4 changeCollector = [] := by decide +kernel
+  unfold C16_full
+  rw [h]
+  exact lockset_of_fpOK (fpOK_of_tableOK mpt_table_ok)
+
+/-- `GetChanges` as the extractor reads it before 4d3d8c8 (hand-copied: `changes[idx] = v` for `v` ranging over
+`cc.Changes`) -/
+def oldGetChanges : Method := { changeCollector_GetChanges with elemEscapes := ["Changes"] }
+
+theorem C16_full_old_false : ¬ C16_full [oldGetChanges] := by
   intro h
-  have hmem : ({ loc := 1004, write := true, sub := 2004, held := some .W } : FAcc) ∈ callerReadsChangeRecord :: footprint mptScope :=
-    List.mem_cons_of_mem _ (by decide +kernel)
-  have := h callerReadsChangeRecord (List.mem_cons_self ..) _ hmem rfl (.inr rfl)
-  simp [Protected, callerReadsChangeRecord] at this
-
-/-- the partial statement that IS proved: without the caller-side read the footprint satisfies the lockset
-discipline (hence `no_conflict`) -/
-theorem C16_lockset_partial : LocksetOK (footprint mptScope) :=
-  lockset_of_fpOK (fpOK_of_tableOK mpt_table_ok)
+  have hcaller : callerAccesses 4 [oldGetChanges] = [{ loc := 1004, write := false, sub := 0, held := none }] := by
+    decide +kernel
+  unfold C16_full at h
+  rw [hcaller] at h
+  have hmem : ({ loc := 1004, write := true, sub := 2004, held := some .W } : FAcc) ∈
+      [({ loc := 1004, write := false, sub := 0, held := none } : FAcc)] ++ footprint mptScope :=
+    List.mem_append_right _ (by decide +kernel)
+  have := h { loc := 1004, write := false, sub := 0, held := none } (by simp) _ hmem rfl (.inr rfl)
+  simp [Protected] at this
 
 /-! ## non-vacuity: the hypotheses of `no_conflict` / `lin_of_table` are satisfiable over the regenerated table
 by a non-trivial instance: a writer that replaces the root (location 2) under the write lock, and a reader that
